@@ -23,6 +23,7 @@ import vcheck as vc
 PROP = "C06"
 
 REGEX = ['test("a+")', 'match("(?<x>a)(b)?"; "g") | .captures | length', '[scan("[a-z]")] | length', 'gsub("a"; "b")', 'sub("(?<l>[a-z])"; "\\(.l)!")', 'split("a+"; null)', '[splits("b")]',
+         'try test("a(b"; "g") catch "bad"', '[., .] | .[] | try test("(") catch "bad"', 'try [match("[a"; "g")] catch "bad"', 'try sub("(?<x"; "y") catch "bad"', 'try [scan("a**")] catch "bad"', 'try test("a"; "xyz") catch "bad"',
          'capture("(?<k>[a-z]+)")', 'test("A"; "i")', '[match("";"g")] | length', 'ascii_downcase | test("ab")', '(tostring | test("1")), (tojson | test("a"))']
 LITERALS = ['[1, [2, {"a": [3]}]] as $c | $c[1].a + [.]', '{"k": {"l": [1, 2]}} | .k.l |= map(. + 1)', '[[1, 2], [3]] | add + [1] | sort', '{"a": [1]} * {"a": [2], "b": {}} | .b.c = 1',
             '[{"a": 1}, {"a": 0}] | sort_by(.a) | .[0].a = 5', '{"x": []} | .x += [1] | .x[0] += 1', '[3, 1, 2] | sort | .[0] = 9', '["a", "b"] | join(",") | ascii_upcase',
@@ -62,6 +63,10 @@ def run(tier, seed, replay):
             # objects / arrays merged into leading empty ones, mutable scalars (*big.Int) reachable from the shared input or from constants
             big = -(2 ** 72)
             sh2 = jqgen.V([{}, {"a": 1}, {"b": 2}, {"c": 3}, [], [1], big, {"n": big}])
+            sh3 = jqgen.V({"ids": [1, 2, 3], "nums": [1, 2.5, True, "x", None], "strs": ["b", "a"], "objs": [{"a": 1}, {"a": 0}], "arrs": [[2], [1]]})
+            progs += [(s, sh3) for s in (".ids | add, join(\",\")", ".nums | (map(type) | join(\" \")), join(\"-\")", "{\"ids\": [1, 2, 3]} | .ids | add, join(\",\")", "[1, 2.5, true, \"x\", null] | (map(type) | join(\" \")), join(\"-\")",
+                                         ".strs | sort, ., join(\"\")", ".objs | sort_by(.a), min_by(.a), ., map(.a)", ".arrs | sort, flatten, add, .", ".nums | tojson, @csv, @sh, map(tostring), .", ".ids | reverse, ., (. - [1]), implode?",
+                                         "[.ids, .strs] | transpose, add, flatten, .", ".ids | map(. + 1), ., unique, group_by(. % 2)", ".nums | @tsv, @json, @text, @html, .", ".objs | to_entries, map(keys), add, .", ".arrs | map(add), map(length), .")]
             progs += [(s, sh2) for s in ("[.[0:4][]] | add", ".[1]", "map(length?)", "[.[] | objects] | add | length", ".[0:4] | add", "[{}, .[1], .[2]] | add", "[.[4], .[5], .[5]] | add", ".[6] | abs", ".[7].n | abs, -(.)",
                                          "[.[6], .[7].n] | map(abs) | add", "[.. | numbers | abs] | length", "[{}, {a: 1}, {b: 2}] | (.[1] | length), (add | length)", "%d | abs, ." % big, "[.[] | objects] | add, add",
                                          "reduce (.[] | objects) as $o ({}; . + $o)", ".[6] | ., abs, (. - 1 | abs)", "[.[6], .[6]] | unique | map(abs)")]
